@@ -332,4 +332,123 @@ def region05 (inp : Input) : String :=
 
 def WF05 (inp : Input) : Bool := region05 inp == "WF"
 
+
+/-! ## C09 — the same statements, executed ideally
+
+Every statement either runs completely or is skipped: it is skipped when an embedded pointer on
+its reading path is nil, when it maps a nil pointer into a struct value or a nil slice; nil elements of
+a slice give zero elements; nothing panics; the written side always has room. -/
+
+def idealValue : Strat → V → Option V
+  | .assign, v | .conv, v => some v
+  | .func k, v => some (applyFn k v)
+  | .sub r w, v => if v.isZero then (if r && !w then none else some .zero) else some v
+  | .each _ _, v => match v with
+    | .zero => none
+    | v => some v
+
+def idealStmt (rs ws : SideSem) (N : List String) (w : WSt) (c : Claim) : WSt :=
+  match resolveField rs.tree c.rd, resolveField ws.tree c.wr with
+  | some rl, some wl =>
+    if (hops rs.ptrs rl.path).all (fun h => !N.contains (joinPath h)) then
+      match idealValue c.strat (readLeaf N rl) with
+      | some v => { w with vals := w.vals ++ [(joinPath wl.path, v)] }
+      | none => w
+    else w
+  | _, _ => w
+
+def idealTo (inp : Input) (p : Plan) (t : Tables) (N : List String) : WSt :=
+  p.toStmts.foldl (idealStmt inp.srcSem inp.destSem N) { alloc := t.destAlloc }
+
+def idealFrom (inp : Input) (p : Plan) (t : Tables) (N : List String) : WSt :=
+  p.fromStmts.foldl (idealStmt inp.destSem inp.srcSem N) { alloc := t.srcAlloc }
+
+/-- a path list in which the embedded pointers crossed by every entry come earlier in the list -/
+def chainOk (pp : List (List String)) : List (List String) → List (List String) → Bool
+  | _, [] => true
+  | seen, g :: gs => (hops pp g).all seen.contains && chainOk pp (seen ++ [g]) gs
+
+/-- the guard of the statement tests every embedded pointer its read crosses, outermost first; the
+    allocation list holds every embedded pointer its write crosses -/
+def stmtTablesOk (rs ws : SideSem) (alloc : List (List String)) (c : Claim) : Bool :=
+  match resolveField rs.tree c.rd, resolveField ws.tree c.wr with
+  | some rl, some wl =>
+    chainOk rs.ptrs [] (readGuard rs.ptrs c.rd) &&
+    (hops rs.ptrs rl.path).all (readGuard rs.ptrs c.rd).contains &&
+    (hops ws.ptrs wl.path).all alloc.contains
+  | _, _ => false
+
+def hasFunc (cs : List Claim) : Bool := cs.any (fun c => match c.strat with | .func _ => true | _ => false)
+
+/-- C09 is asserted where: plain exported structs (C05's pairs), the mapper type not embedded by
+    pointer (or unused), and the emitted path tables are closed under "outer pointer first" -/
+def WF09 (inp : Input) : Bool :=
+  let p := plan inp
+  let t := tables inp p
+  !inp.srcNew && !inp.destNew &&
+  (inp.mapperPtr != some true || (!hasFunc p.toStmts && !hasFunc p.fromStmts)) &&
+  chainOk inp.destSem.ptrs [] t.destAlloc && chainOk inp.srcSem.ptrs [] t.srcAlloc &&
+  p.toStmts.all (stmtTablesOk inp.srcSem inp.destSem t.destAlloc) &&
+  p.fromStmts.all (stmtTablesOk inp.destSem inp.srcSem t.srcAlloc)
+
+/-- F_ptrMapper: the mapper type is embedded BY POINTER and a generated method calls one of its
+    (value-receiver) methods: ToX panics when the pointer is nil, FromX always — it has just reset the receiver -/
+def F_ptrMapper (inp : Input) : Bool :=
+  let p := plan inp
+  inp.mapperPtr == some true && ((toGen inp && hasFunc p.toStmts) || (fromGen inp && hasFunc p.fromStmts))
+
+def region09 (inp : Input) : String :=
+  if dupFns inp.fns then "OutDup"
+  else if !inp.fns.all (fun f => !f.param.isStructSlice && !f.result.isStructSlice) then "OutFnSlice"
+  else if !(leavesOf inp.src).all (fun s => (leavesOf inp.dest).all (fun d => subNamesAgree s.decl.ty d.decl.ty)) then "OutSubNames"
+  else if !(leavesOf inp.dest).all (fun d => match d.decl.tag with | .name _ => false | _ => true) then "OutDestTag"
+  else if !grammarOk inp then "OutGrammar"
+  else if !modelCompiles inp then "OutCompile"
+  else if F_ptrMapper inp then "F_ptrMapper"
+  else if WF09 inp then "WF"
+  else "F_pathTable"
+
+def nilsOf (mask : String) (slots : List String) : List String :=
+  ((mask.toList.zip slots).filter (fun cs => cs.1 == '1')).map (·.2)
+
+def showReset (clean dirty nilr : String) : String :=
+  if dirty == clean && nilr == clean then "same" else "dirty:" ++ dirty ++ "|nil:" ++ nilr
+
+/-- C09 observables of the model: per nil mask the outcome of ToX / FromX, and whether FromX depends on the receiver -/
+def obs09 (inp : Input) (srcSlots destSlots masks fmasks : List String) : List (String × String) :=
+  if !modelCompiles inp then [("compile", "error")] else
+  let p := plan inp
+  let t := tables inp p
+  let sl := leavesOf inp.src
+  let dl := leavesOf inp.dest
+  [("compile", "ok")]
+    ++ (if toGen inp then
+          [("to:nilrecv", (execToP inp p t [] true).show dl)] ++
+          masks.map (fun m => ("toN:" ++ m, (execToP inp p t (nilsOf m srcSlots)).show dl))
+        else [])
+    ++ (if fromGen inp then
+          [("from:nilarg", (execFromP inp p t [] .clean true).show sl)] ++
+          fmasks.flatMap (fun m =>
+            let N := nilsOf m destSlots
+            let c := (execFromP inp p t N .clean).show sl
+            [("fromN:" ++ m, c),
+             ("reset:" ++ m, showReset c ((execFromP inp p t N .dirty).show sl) ((execFromP inp p t N .nil).show sl))])
+        else [])
+
+def spec09 (inp : Input) (srcSlots destSlots masks fmasks : List String) : List (String × String) :=
+  let p := plan inp
+  let t := tables inp p
+  let sl := leavesOf inp.src
+  let dl := leavesOf inp.dest
+  [("compile", "ok")]
+    ++ (if toGen inp then
+          [("to:nilrecv", "nil")] ++
+          masks.map (fun m => ("toN:" ++ m, (Outcome.value (idealTo inp p t (nilsOf m srcSlots))).show dl))
+        else [])
+    ++ (if fromGen inp then
+          [("from:nilarg", "nil")] ++
+          fmasks.flatMap (fun m =>
+            [("fromN:" ++ m, (Outcome.value (idealFrom inp p t (nilsOf m destSlots))).show sl), ("reset:" ++ m, "same")])
+        else [])
+
 end ShootVerif.Mapper
